@@ -852,9 +852,39 @@ class _Builder:
             prev = self.emit(gens, src, dst, mode, prev if mode == "same"
                              else None)
         ranks = [self.finish(g) for g in gens]
+        ranks = [self.hoist_holder(r) for r in ranks]
         case = {"nranks": n, "pattern": pattern,
                 "ranks": copy.deepcopy(ranks)}
         return gc_case(case)
+
+    def hoist_holder(self, spec):
+        """Sometimes make an EARLIER consumer of a holder's pass-through
+        operand use the holder instead (x -> staple_send(data, ..., x)): the
+        value is the same and, a holder's value being its pass-through only,
+        so are the message dependencies - but the holder of a later message
+        now sits inside the payload of an earlier one."""
+        if not self.boolean(1, 3):
+            return spec
+        nodes = spec["nodes"]
+        holders = [i for i, n in enumerate(nodes) if n["op"] == "sendhold"]
+        cands = []
+        for h in holders:
+            y = nodes[h]["args"][1][1]
+            for j in range(len(nodes)):
+                if j == h or nodes[j]["op"] == "sendhold":
+                    continue
+                for pos, a in enumerate(nodes[j].get("args", [])):
+                    if a[0] == "n" and a[1] == y and j < h:
+                        cands.append((h, j, pos))
+        if not cands:
+            return spec
+        h, j, pos = self.draw(st.sampled_from(cands))
+        new = copy.deepcopy(spec)
+        new["nodes"][j]["args"][pos] = ["n", h]
+        try:
+            return toposort_rank(new)
+        except ModelError:
+            return spec           # (the holder's data depends on that consumer)
 
 
 @st.composite
